@@ -81,6 +81,11 @@ typedef struct private_state {
   bitrate_manager_state bms;
 
   ogg_int64_t sample_count;
+
+  /* decode side: nonzero once the data in front of the current block's
+     second half has been made contiguous with it (or there is none);
+     set by vorbis_synthesis_lapout, reset by vorbis_synthesis_blockin */
+  int lapped;
 } private_state;
 
 /* codec_setup_info contains all the setup information specific to the
